@@ -17,13 +17,17 @@ inductive Iter | empty | nonempty | unk deriving DecidableEq, Repr
 /-- an observable event: a labelled simple statement executed / a labelled unknown test evaluated -/
 inductive Ev | stmt (l : Nat) | test (id : Nat) deriving DecidableEq, Repr
 
+/-- the handler of a `try`: none (`try/finally`), one that catches everything, or one that may or may not match -/
+inductive HKind | none | all | some deriving DecidableEq, Repr
+
 inductive Stmt where
   | simple (l : Nat) | ret | raise | brk | cont
   | assertC (c : Cond)
   | ite (c : Cond) (body orelse : List Stmt)
-  | whileS (c : Cond) (body : List Stmt)
-  | forS (it : Iter) (body : List Stmt)
+  | whileS (c : Cond) (body orelse : List Stmt)          -- `while c: body else: orelse`
+  | forS (it : Iter) (body orelse : List Stmt)          -- `for _ in it: body else: orelse`
   | withS (body : List Stmt)
+  | tryS (body : List Stmt) (hk : HKind) (handler : List Stmt) (final : List Stmt)
 deriving Repr
 
 inductive Out | normal | ret | raise | brk | cont | fuel deriving DecidableEq, Repr
@@ -41,6 +45,57 @@ def evalCond (ω : Oracle) (c : Cond) (s : St) : Bool × St :=
   | .tt => (true, s) | .ff => (false, s)
   | .unk id neg => (ω s.pos != neg, ⟨s.pos + 1, .test id :: s.trace⟩)
 
+/-- the handler step of a `try`: `r1` is the result of the body, `runH` runs the handler.  A handler that may or may not
+match reads one oracle bit. -/
+def handle (ω : Oracle) (r1 : Out × St) (hk : HKind) (runH : St → Out × St) : Out × St :=
+  if r1.1 = .raise then
+    match hk with
+    | .none => r1
+    | .all => runH r1.2
+    | .some =>
+      if ω r1.2.pos then runH ⟨r1.2.pos + 1, r1.2.trace⟩
+      else (.raise, ⟨r1.2.pos + 1, r1.2.trace⟩)
+  else r1
+
+/-- the `finally` step: a block that completes normally lets the pending outcome through, otherwise its own outcome wins -/
+def finish (r2 : Out × St) (runF : St → Out × St) : Out × St :=
+  if r2.1 = .fuel then r2
+  else if (runF r2.2).1 = .normal then (r2.1, (runF r2.2).2) else runF r2.2
+
+def tryComb (ω : Oracle) (r1 : Out × St) (hk : HKind) (runH runF : St → Out × St) : Out × St :=
+  finish (handle ω r1 hk runH) runF
+
+theorem handle_avoid (bad : Out → Prop) (hraise : ¬ bad .raise) (ω : Oracle) (r1 : Out × St) (hk : HKind)
+    (runH : St → Out × St) (h1 : ¬ bad r1.1) (hH : ∀ s, ¬ bad (runH s).1) : ¬ bad (handle ω r1 hk runH).1 := by
+  unfold handle
+  by_cases hr : r1.1 = .raise
+  · rw [if_pos hr]
+    cases hk with
+    | none => exact h1
+    | all => exact hH _
+    | some =>
+      simp only
+      by_cases hw : ω r1.2.pos = true
+      · rw [if_pos hw]; exact hH _
+      · rw [if_neg hw]; exact hraise
+  · rw [if_neg hr]; exact h1
+
+theorem finish_avoid (bad : Out → Prop) (r2 : Out × St) (runF : St → Out × St)
+    (h2 : ¬ bad r2.1) (hF : ∀ s, ¬ bad (runF s).1) : ¬ bad (finish r2 runF).1 := by
+  unfold finish
+  by_cases hf : r2.1 = .fuel
+  · rw [if_pos hf]; exact h2
+  · rw [if_neg hf]
+    by_cases hn : (runF r2.2).1 = .normal
+    · rw [if_pos hn]; exact h2
+    · rw [if_neg hn]; exact hF _
+
+/-- an outcome class that `raise` does not belong to is avoided by a `try` whose parts avoid it -/
+theorem tryComb_avoid (bad : Out → Prop) (hraise : ¬ bad .raise) (ω : Oracle) (r1 : Out × St) (hk : HKind)
+    (runH runF : St → Out × St) (h1 : ¬ bad r1.1) (hH : ∀ s, ¬ bad (runH s).1) (hF : ∀ s, ¬ bad (runF s).1) :
+    ¬ bad (tryComb ω r1 hk runH runF).1 :=
+  finish_avoid bad _ runF (handle_avoid bad hraise ω r1 hk runH h1 hH) hF
+
 mutual
 def exec (ω : Oracle) : Nat → Stmt → St → Out × St
   | 0, _, s => (.fuel, s)
@@ -51,34 +106,35 @@ def exec (ω : Oracle) : Nat → Stmt → St → Out × St
     | .assertC c => let (b, s') := evalCond ω c s; if b then (.normal, s') else (.raise, s')
     | .ite c b o => let (v, s') := evalCond ω c s; if v then execList ω fuel b s' else execList ω fuel o s'
     | .withS b => execList ω fuel b s
-    | .whileS c b =>
+    | .whileS c b e =>
         let (v, s') := evalCond ω c s
         if v then
           match execList ω fuel b s' with
-          | (.normal, s'') => exec ω fuel (.whileS c b) s''
-          | (.cont, s'') => exec ω fuel (.whileS c b) s''
+          | (.normal, s'') => exec ω fuel (.whileS c b e) s''
+          | (.cont, s'') => exec ω fuel (.whileS c b e) s''
           | (.brk, s'') => (.normal, s'')
           | r => r
-        else (.normal, s')
-    | .forS it b =>
+        else execList ω fuel e s'
+    | .forS it b e =>
         -- number of iterations: empty → 0; nonempty → 1 + unknown more; unk → unknown
         match it with
-        | .empty => (.normal, s)
+        | .empty => execList ω fuel e s
         | .nonempty =>
             match execList ω fuel b s with
-            | (.normal, s'') => exec ω fuel (.forS .unk b) s''
-            | (.cont, s'') => exec ω fuel (.forS .unk b) s''
+            | (.normal, s'') => exec ω fuel (.forS .unk b e) s''
+            | (.cont, s'') => exec ω fuel (.forS .unk b e) s''
             | (.brk, s'') => (.normal, s'')
             | r => r
         | .unk =>
             let (v, s') := (ω s.pos, (⟨s.pos + 1, s.trace⟩ : St))
             if v then
               match execList ω fuel b s' with
-              | (.normal, s'') => exec ω fuel (.forS .unk b) s''
-              | (.cont, s'') => exec ω fuel (.forS .unk b) s''
+              | (.normal, s'') => exec ω fuel (.forS .unk b e) s''
+              | (.cont, s'') => exec ω fuel (.forS .unk b e) s''
               | (.brk, s'') => (.normal, s'')
               | r => r
-            else (.normal, s')
+            else execList ω fuel e s'
+    | .tryS b hk hb f => tryComb ω (execList ω fuel b s) hk (execList ω fuel hb) (execList ω fuel f)
 def execList (ω : Oracle) : Nat → List Stmt → St → Out × St
   | 0, _, s => (.fuel, s)
   | _+1, [], s => (.normal, s)
@@ -97,6 +153,9 @@ def hasBrk : Stmt → Bool
   | .brk => true
   | .ite _ b o => hasBrkL b || hasBrkL o
   | .withS b => hasBrkL b
+  | .whileS _ _ e => hasBrkL e                -- jumps in a nested loop's body are its own; in its else clause, ours
+  | .forS _ _ e => hasBrkL e
+  | .tryS b _ hb f => hasBrkL b || hasBrkL hb || hasBrkL f
   | _ => false
 def hasBrkL : List Stmt → Bool
   | [] => false
@@ -107,6 +166,9 @@ def hasJmp : Stmt → Bool
   | .brk => true | .cont => true
   | .ite _ b o => hasJmpL b || hasJmpL o
   | .withS b => hasJmpL b
+  | .whileS _ _ e => hasJmpL e
+  | .forS _ _ e => hasJmpL e
+  | .tryS b _ hb f => hasJmpL b || hasJmpL hb || hasJmpL f
   | _ => false
 def hasJmpL : List Stmt → Bool
   | [] => false
@@ -125,8 +187,8 @@ def blocks : Par → Stmt → Bool
       | .tt => blocksL p b | .ff => blocksL p o
       | .unk _ _ => blocksL p b && blocksL p o
   | p, .withS b => blocksL p b
-  | _, .whileS c b => c == .tt && !hasBrkL b
-  | _, .forS it b => it == .nonempty && firstIter b
+  | _, .whileS c b _ => c == .tt && !hasBrkL b
+  | _, .forS it b _ => it == .nonempty && firstIter b
   | _, _ => false
 /-- some reachable child blocks; stop at a child that never completes normally, and (for a
     loop parent) at a child that may jump to the loop header/exit -/
@@ -173,31 +235,37 @@ theorem noBrk (ω : Oracle) : ∀ fuel,
         · exact ih2 _ _ h.1
         · exact ih2 _ _ h.2
       | withS b => simp [hasBrk] at h; simp only [exec]; exact ih2 _ _ h
-      | whileS c b =>
+      | whileS c b e =>
+        have he : hasBrkL e = false := by simpa [hasBrk] using h
         simp only [exec]
         split
         · split
-          · exact ih1 _ _ rfl
-          · exact ih1 _ _ rfl
+          · exact ih1 _ _ (by simpa [hasBrk] using he)
+          · exact ih1 _ _ (by simpa [hasBrk] using he)
           · simp
           · rename_i hb; exact fst_ne_of hb
-        · simp
-      | forS it b =>
+        · exact ih2 _ _ he
+      | forS it b e =>
+        have he : hasBrkL e = false := by simpa [hasBrk] using h
         simp only [exec]
         split
-        · simp
+        · exact ih2 _ _ he
         · split
-          · exact ih1 _ _ rfl
-          · exact ih1 _ _ rfl
+          · exact ih1 _ _ (by simpa [hasBrk] using he)
+          · exact ih1 _ _ (by simpa [hasBrk] using he)
           · simp
           · rename_i hb; exact fst_ne_of hb
         · split
           · split
-            · exact ih1 _ _ rfl
-            · exact ih1 _ _ rfl
+            · exact ih1 _ _ (by simpa [hasBrk] using he)
+            · exact ih1 _ _ (by simpa [hasBrk] using he)
             · simp
             · rename_i hb; exact fst_ne_of hb
-          · simp
+          · exact ih2 _ _ he
+      | tryS b hk hb f =>
+        simp [hasBrk] at h
+        simp only [exec]
+        exact tryComb_avoid (· = .brk) (by simp) ω _ hk _ _ (ih2 _ _ h.1.1) (fun s => ih2 _ s h.1.2) (fun s => ih2 _ s h.2)
     · intro l s h
       cases l with
       | nil => simp [execList]
@@ -238,31 +306,37 @@ theorem noJmp (ω : Oracle) : ∀ fuel,
         · exact ih2 _ _ h.1
         · exact ih2 _ _ h.2
       | withS b => simp [hasJmp] at h; simp only [exec]; exact ih2 _ _ h
-      | whileS c b =>
+      | whileS c b e =>
+        have he : hasJmpL e = false := by simpa [hasJmp] using h
         simp only [exec]
         split
         · split
-          · exact ih1 _ _ rfl
-          · exact ih1 _ _ rfl
+          · exact ih1 _ _ (by simpa [hasJmp] using he)
+          · exact ih1 _ _ (by simpa [hasJmp] using he)
           · simp [Esc]
           · rename_i hn hc hb; exact not_esc_of hb hc
-        · simp [Esc]
-      | forS it b =>
+        · exact ih2 _ _ he
+      | forS it b e =>
+        have he : hasJmpL e = false := by simpa [hasJmp] using h
         simp only [exec]
         split
-        · simp [Esc]
+        · exact ih2 _ _ he
         · split
-          · exact ih1 _ _ rfl
-          · exact ih1 _ _ rfl
+          · exact ih1 _ _ (by simpa [hasJmp] using he)
+          · exact ih1 _ _ (by simpa [hasJmp] using he)
           · simp [Esc]
           · rename_i hn hc hb; exact not_esc_of hb hc
         · split
           · split
-            · exact ih1 _ _ rfl
-            · exact ih1 _ _ rfl
+            · exact ih1 _ _ (by simpa [hasJmp] using he)
+            · exact ih1 _ _ (by simpa [hasJmp] using he)
             · simp [Esc]
             · rename_i hn hc hb; exact not_esc_of hb hc
-          · simp [Esc]
+          · exact ih2 _ _ he
+      | tryS b hk hb f =>
+        simp [hasJmp] at h
+        simp only [exec]
+        exact tryComb_avoid Esc (by simp [Esc]) ω _ hk _ _ (ih2 _ _ h.1.1) (fun s => ih2 _ s h.1.2) (fun s => ih2 _ s h.2)
     · intro l s h
       cases l with
       | nil => simp [execList, Esc]
@@ -354,6 +428,7 @@ theorem sound (ω : Oracle) : ∀ fuel,
         · rename_i heq; rw [heq] at hg; exact absurd (Or.inr rfl) hg.not_esc
         · rename_i heq; rw [heq] at hg; exact absurd (Or.inl rfl) hg.not_esc
         · exact GoodLoop.good p hg
+      | tryS b hk hb f => simp [blocks] at h
     · intro p l s h
       cases l with
       | nil => simp [blocksL] at h
